@@ -18,8 +18,10 @@ for sid in sorted(os.listdir(base)):
     ev = tempfile.mkdtemp(prefix='seedev')
     fired = {}
     try:
-        for p in props:
-            r = subprocess.run([os.path.join(VERIF, 'check'), p, '--evidence-dir', ev], capture_output=True, text=True)
+        from concurrent.futures import ThreadPoolExecutor
+        with ThreadPoolExecutor(16) as ex:
+            results = list(ex.map(lambda p: (p, subprocess.run([os.path.join(VERIF, 'check'), p, '--evidence-dir', os.path.join(ev, p)], capture_output=True, text=True)), props))
+        for p, r in results:
             keys = [l.split(':')[0][len('REFUTED '):] for l in r.stdout.splitlines() if l.startswith('REFUTED ')]
             if r.returncode == 1 and keys:
                 fired[p] = keys[:4]
